@@ -170,6 +170,30 @@ func TestC07(t *testing.T) {
 			return c07Case{c}
 		}, c07Run)
 	}
+	// counts just below powers of two that matter to float32/float64/int64
+	// conversions: an alphabet of 2^k characters, k*Length bits, one almost
+	// harmless requirement
+	ev.Fixed(t, "c07_power_boundaries", func(do func(c07Case) bool) {
+		pool := "abcdefghijklmnopqrstuvwxyzABCDEFGHIJKLMNOPQRSTUVWXYZ0123456789+/"
+		i := 0
+		for k := 1; k <= 6; k++ {
+			for _, bits := range []int{24, 31, 32, 53, 63, 64, 65, 127, 128, 129, 255, 256, 511, 512, 1022, 1023, 1024, 1025, 1026, 2048} {
+				if bits%k != 0 {
+					continue
+				}
+				i++
+				if i%ev.Cfg.NShards != ev.Cfg.Shard {
+					continue
+				}
+				ab := pool[:1<<uint(k)]
+				for _, req := range []string{ab[:len(ab)-1], ab[:1], ab} {
+					if !do(c07Case{oracle.CharSpec{Length: bits / k, AllowChars: ab, RequireSets: []string{req}}}) {
+						return
+					}
+				}
+			}
+		}
+	}, c07Run)
 	ev.Check(t, "c07_many_sets", ev.N(160, 1600), func(t *rapid.T) c07Case {
 		c := gen.CharSpec(t, gen.CharOpts{MaxLen: 40, MaxReq: 8, NoHiBits: true})
 		c.Require = 0
